@@ -21,7 +21,7 @@ CLAIMED = {
    ref="DESIGN.md 7.C09"),
  "C11": dict(
    technique="property-based testing: bounded-exhaustive loop grid with a trace oracle, multiset oracle for maps, and rapid-generated loop nestings against a reference interpreter",
-   text="The full grid of collection length x offset x limit x reversed x for/tablerow(cols) x break/continue position x else, over six collection representations and all small range endpoint pairs, renders a trace record per iteration that is compared with the reverse-skip-take model and the forloop formulas; maps are compared as multisets; random nestings with cycles and jumps are compared with the reference interpreter.",
+   text="The full grid of collection length x offset x limit x reversed x for/tablerow(cols) x break/continue position x else, over six collection representations and all small range endpoint pairs, renders a trace record per iteration that is compared with the reverse-skip-take model and the forloop formulas; maps are compared as multisets; random nestings with cycles and jumps are compared with the reference interpreter; cycle values that begin or end with white space must come out exactly beside hyphenated neighbours.",
    note="Trusted: the reference interpreter (harness/hx/model.go) and the trace parser. Unspecified: negative offset/limit (only internal consistency of the trace is asserted), iteration order of maps, break inside tablerow (cell text only), two cycle tags of one group with different value lists.",
    ref="DESIGN.md 7.C11"),
  "C12": dict(
@@ -36,7 +36,7 @@ CLAIMED = {
    ref="DESIGN.md 7.C10"),
  "C08": dict(
    technique="property-based testing: exhaustive index grid, rapid-generated lookup paths and expression trees against a reference model, and three metamorphic relations (pipeline = assign decomposition, spacing invariance, strict = lax unless final nil)",
-   text="The array-length x index grid is swept completely; generated lookup paths over nested bindings and expression trees are compared with the reference model in normal and strict mode; every standard filter takes part in generated pipelines that must render exactly like their one-step-at-a-time assign decomposition; programs printed under two whitespace policies must render identically; unknown filters and excess arguments must be errors.",
+   text="The array-length x index grid is swept completely; generated lookup paths over nested bindings and expression trees are compared with the reference model in normal and strict mode; every standard filter takes part in generated pipelines that must render exactly like their one-step-at-a-time assign decomposition; programs printed under two whitespace policies must render identically; unknown filters and excess arguments must be errors; a list of maps with string, integer, float and interface key types and an ordered map is indexed by keys of another kind, by numbers the key type cannot hold and by equal numbers of another width (a key is a key by its value).",
    note="Trusted: the reference lookup/printing model; the harness's filter arity table only steers generation (the relation itself is between two executions of the implementation). Unspecified: float indices, size of a string through property syntax, printing arrays/maps/ranges, exponent notation.",
    ref="DESIGN.md 7.C08"),
  "C15": dict(
@@ -51,7 +51,7 @@ CLAIMED = {
    ref="DESIGN.md 7.C16"),
  "C18": dict(
    technique="property-based testing: metamorphic relation between two realisations of the same logical bindings (canonical vs independently re-represented at every node), on rapid-generated role-typed programs, an exhaustive numeric-width grid and an exhaustive filter x universe x wrapping sweep",
-   text="Role-typed generated programs are rendered against canonical bindings and against bindings in which every node independently takes another representation the statement names (numeric width, typed slice/array/map, ordered map, []byte, Drop at any depth incl. Drop-of-Drop, pointer); every numeric value x width x operator and every filter x universe value x {Drop, nested Drop, pointer, Drop-wrapped elements} as receiver and as argument must render as the unwrapped/canonical form.",
+   text="Role-typed generated programs are rendered against canonical bindings and against bindings in which every node independently takes another representation the statement names (numeric width, typed slice/array/map, ordered map, []byte, Drop at any depth incl. Drop-of-Drop, pointer); every numeric value x width x operator and every filter x universe value x {Drop, nested Drop, pointer, Drop-wrapped elements} as receiver and as argument must render as the unwrapped/canonical form; pointers to times, ints and strings reached as variables, struct fields, map entries, loop variables and slice elements must render as what they point to (nil ones as nil).",
    note="Trusted: hx.Spec.Realise builds equal logical values. Representations are only used in the positions the statement names (ordered map only lookup and size, []byte only printed, arrays with Drop elements not where a string is expected; numbers of every width also as index, range bound, limit/offset/cols and integer filter arguments; typed slices of every integer width in every position); type/inspect/json report the Go value by design and are unspecified.",
    ref="DESIGN.md 7.C18"),
  "C13": dict(
@@ -71,12 +71,12 @@ CLAIMED = {
    ref="DESIGN.md 7.C06"),
  "C07": dict(
    technique="property-based testing: product of failing-construct kinds x nesting depth x path x starting line with generated layouts; oracle computed from the construction (newline count before the failing token) and the cause (the filter's own error through its FilterError wrapper; a conversion error as Cause() itself)",
-   text="33 kinds of failing construct are placed at every depth 0..6 of entered blocks, with generated newline layouts and multi-line tags, parsed with and without a path and with starting lines 0/1/37; the error's LineNumber, Path, message and Cause chain are compared with what the construction determines, and Render must not return output with an error.",
+   text="44 kinds of failing construct (among them a method or function field of a bound struct that returns an error, and a caller-registered tag and block that expand objects in their arguments) are placed at every depth 0..6 of entered blocks, with generated newline layouts and multi-line tags, parsed with and without a path and with starting lines 0/1/37; the error's LineNumber, Path, message and Cause chain are compared with what the construction determines, and Render must not return output with an error.",
    note="Trusted: the harness's own bookkeeping of where the failing token starts; for unclosed blocks the expected location is the first token the C06 reference acceptor rejects (or the opener at end of input). Message text is only checked for naming the offending filter/tag or carrying the sentinel.",
    ref="DESIGN.md 7.C07"),
  "C19": dict(
    technique="property-based testing: metamorphic relation between a custom-delimiter engine on the re-spelled template and the default engine on the default spelling; exhaustive small delimiter quadruples plus rapid-generated ones (native go fuzzing of the quadruple in the thorough tier)",
-   text="All valid quadruples of length-1 strings over < > [ ] \\ ^ with every subset of positions left empty (and all length <= 2 quadruples in the thorough tier) plus random quadruples up to length 4 are applied to generated templates with hyphens, raw/comment blocks and a failing last line; output bytes or the error's line number must equal the default spelling on a default engine, and default delimiter strings must be plain text for other delimiters.",
+   text="All valid quadruples of length-1 strings over < > [ ] \\ ^ with every subset of positions left empty (and all length <= 2 quadruples in the thorough tier) plus random quadruples up to length 4 are applied to generated templates with hyphens, raw/comment blocks and a failing last line; output bytes or the error's line number must equal the default spelling on a default engine, and default delimiter strings must be plain text for other delimiters; a final tag shorter than the object delimiter, and a caller-registered tag that expands objects in its argument (ExpandTagArg), must behave as under the default spelling.",
    note="Templates whose contents contain a delimiter character are outside the statement ('a template written with them') and are excluded and counted. Trusted: hx.Spell produces the same token sequence under both spellings.",
    ref="DESIGN.md 7.C19"),
  "C20": dict(
@@ -87,8 +87,8 @@ CLAIMED = {
    ref="DESIGN.md 7.C20"),
  "C14": dict(
    technique="property-based testing: metamorphic relation include = the selected content rendered on its own (capture) and inserted as a value, over rapid-generated include graphs laid out in temporary directories with per-file disk/cache/both/empty/missing states",
-   text="Generated include graphs (chains to depth 4, leaves in nested directories, equal base names with distinct content) with every file independently on disk, cache-only, in both with different content, zero bytes on disk, or missing, and include arguments spelled six ways, must render exactly like the template in which every include is replaced recursively by the content the statement selects; missing files, non-string arguments and errors inside included templates must fail the render without output.",
-   note="Trusted: the harness's inliner (disk over cache). Relative names are resolved against the directory of the path the rendered (top-level) template was parsed with, at every depth; a second top-level template in a sub-directory is rendered on the same engine for a third of the cases; variables assigned inside an included template are not probed afterwards; a hyphen facing an include tag from the includer's side is never generated (not stated). Temporary directories live under the run's scratch directory and are removed per case.",
+   text="Generated include graphs (chains to depth 4, leaves in nested directories, equal base names with distinct content) with every file independently on disk, cache-only, in both with different content, zero bytes on disk, or missing, and include arguments spelled six ways, must render exactly like the template in which every include is replaced recursively by the content the statement selects; missing files, non-string arguments and errors inside included templates (also a break or continue outside every loop of the included file, with the include tag inside a loop) must fail the render without output.",
+   note="Trusted: the harness's inliner (disk over cache). Relative names are resolved against the directory of the path the rendered (top-level) template was parsed with, at every depth; a second top-level template in a sub-directory is rendered on the same engine for a third of the cases; variables assigned inside an included template are not probed afterwards; hyphenated tags and objects of the includer facing an include tag are generated (the included output is inserted exactly, as a value is); cached sources are sometimes registered under a path that is not in its shortest form. Temporary directories live under the run's scratch directory and are removed per case.",
    ref="DESIGN.md 7.C14"),
  "C02": dict(
    technique="property-based testing: identity relation over ~21 executions per generated case (entry points, re-parses, fresh engines, a fresh process, the command-line binary) with bindings re-realised in other insertion orders and at other addresses",
